@@ -1106,6 +1106,9 @@ func c15TextReplay(raw json.RawMessage) bool {
 }
 
 func c15Replay(c *core.Ctx, payload json.RawMessage) {
+	if c15DefaultsReplay(c, payload) {
+		return
+	}
 	if c15TextReplay(payload) {
 		return
 	}
